@@ -48,6 +48,7 @@ type Profile struct {
 	PDup         float64
 	PCallback    float64
 	PInfo        float64
+	PLocPC       float64 // a constructor is provided with LocationForPC
 	PVisualize   float64
 	PDefer       float64
 	PRecover     float64
@@ -126,6 +127,11 @@ func (g *gen) randResults(n int, allowGroup bool) []Res {
 	for tries := 0; len(rs) < n && tries < 20; tries++ {
 		if allowGroup && g.coin(g.p.PGroupRes) {
 			r := Res{K: g.randGroupKey()}
+			if r.K.T == tSliceV && g.coin(0.5) {
+				r.Nil = true
+				rs = append(rs, r)
+				continue
+			}
 			if g.coin(g.p.PFlatten) {
 				r.Flatten = true
 				r.N = g.r.Intn(4)
@@ -251,7 +257,7 @@ func (g *gen) randLay(in bool) int {
 		return 0
 	}
 	if in {
-		return []int{1, 2, 3, 4, 5, 6, 7, 7}[g.r.Intn(8)]
+		return []int{1, 2, 3, 4, 5, 6, 7, 7, 8, 8}[g.r.Intn(10)]
 	}
 	return []int{1, 4, 5, 6}[g.r.Intn(4)]
 }
@@ -473,6 +479,9 @@ func genHistory(r *rand.Rand, p Profile) *History {
 	}
 	var regOps []Op
 	for _, c := range ctors {
+		if g.coin(p.PLocPC) {
+			c.f.LocPC = 1 + g.r.Intn(4)
+		}
 		regOps = append(regOps, c.op)
 	}
 	// decorators
@@ -591,6 +600,9 @@ func genHistory(r *rand.Rand, p Profile) *History {
 		s := g.r.Intn(g.nScopes)
 		f := g.newFn()
 		f.Params = g.randParams(1+g.r.Intn(3), s, -1)
+		if g.coin(0.06) {
+			f.Params = nil // func() / func() error: nothing to resolve, still one call (none in a dry container)
+		}
 		if g.coin(0.2) {
 			f.HasErr = true
 		}
@@ -598,6 +610,12 @@ func genHistory(r *rand.Rand, p Profile) *History {
 			g.addFaults(f)
 		}
 		f.Variadic = g.coin(p.PVariadic)
+		if !g.noLay && g.coin(0.08) {
+			// an invoked function may return values besides its error: dig ignores them
+			for j := 1 + g.r.Intn(2); j > 0; j-- {
+				f.Results = append(f.Results, Res{K: Key{T: g.randSingleKey().T}})
+			}
+		}
 		g.encodeParamsOnly(f)
 		op := Op{Kind: OpInvoke, Scope: s, Fn: f.ID, Info: g.coin(p.PInfo)}
 		invokes = append(invokes, op)
